@@ -512,3 +512,13 @@ def run(facts, rep, tier):
     rep.rule("C08-R8", "= C13-R4: the link under the cursor is found by comparing positions line first, column second.")
     from . import c13
     c13.rule_r4(facts, rep, "C08-R8")
+    rep.rule("C08-R9", "= C15-R3: the links rename rewrites are written with Key::to_rel_link_url and read back with Key::from_rel_link_url / Key::parent - one path algebra (relative_path), "
+                       "no string-prefix arithmetic: otherwise a rewritten (or merely re-exported) link resolves to another note.")
+    from . import c15
+    c15.rule_r3(facts, rep, "C08-R9")
+    rep.rule("C08-R10", "= C14-R3 / R5 / R8: the files rename creates and deletes are addressed through Key::to_path / BasePath::key_to_url, which name the file `key + .md` without treating "
+                        "dots in a name as extensions (otherwise the rename clobbers an unrelated note and the new name never exists).")
+    from . import c14
+    c14.rule_r3(facts, rep, "C08-R10")
+    c14.rule_r5(facts, rep, "C08-R10b")
+    c14.rule_r8(facts, rep, "C08-R10c")
